@@ -107,6 +107,32 @@ func genC20(r *Rng, e *Emitter, n int) {
 			c20Call(e, stride, thr, flat)
 		}
 	}
+	// a vertex whose distance from its chord is the threshold itself, or a 2^-41 part more or less
+	// (small whole-number chords along an axis or a diagonal: the float distance is then exact)
+	for i := 0; i < n/40+12; i++ {
+		thr := []float64{0.5, 1, 2, 3, 4, 8}[r.Intn(6)]
+		h := thr * (1 + float64(r.Intn(3)-1)*math.Ldexp(1, -41))
+		half := float64(1 + r.Intn(6))
+		var pts [][2]float64
+		switch r.Intn(3) {
+		case 0:
+			pts = [][2]float64{{0, 0}, {half, h}, {2 * half, 0}}
+		case 1:
+			pts = [][2]float64{{0, 0}, {-h, half}, {0, 2 * half}}
+		default:
+			pts = [][2]float64{{0, 0}, {half, h}, {2 * half, 0}, {3 * half, -h}, {4 * half, 0}}
+		}
+		stride := 2 + r.Intn(2)
+		flat := make([]float64, 0, len(pts)*stride)
+		for _, q := range pts {
+			flat = append(flat, q[0], q[1])
+			for o := 2; o < stride; o++ {
+				flat = append(flat, r.anyBits())
+			}
+		}
+		e.tally("distance-at-the-threshold")
+		c20Call(e, stride, thr, flat)
+	}
 	for i := 0; i < n; i++ {
 		stride := 2 + r.Intn(4)
 		size := r.Intn(12)
